@@ -366,51 +366,6 @@ func c18Value(kind string, fd protoreflect.MessageDescriptor, target proto.Messa
 	return &dtpb.String{Value: "abc"}, "wrong"
 }
 
-// fixedSrc: a deterministic Src for building values from a drawn seed (keeps value
-// construction out of the rapid bit stream so replays stay small).
-type fixedSrc struct{ seed int }
-
-func (f fixedSrc) next(n int) int {
-	x := mix64(uint64(f.seed)*0x9e3779b97f4a7c15 + uint64(n))
-	return int(x >> 33)
-}
-
-var fixedCounter int
-
-func (f fixedSrc) Intn(n int) int {
-	if n <= 1 {
-		return 0
-	}
-	fixedCounter++
-	return f.next(fixedCounter) % n
-}
-func (f fixedSrc) Range(lo, hi int) int {
-	if hi <= lo {
-		return lo
-	}
-	return lo + f.Intn(hi-lo+1)
-}
-func (f fixedSrc) Bool() bool        { return f.Intn(2) == 1 }
-func (f fixedSrc) Prob(pct int) bool { return f.Intn(100) < pct }
-func (f fixedSrc) Int32() int32      { return int32(f.Intn(1 << 30)) }
-func (f fixedSrc) Int64() int64      { return int64(f.Intn(1 << 30)) }
-func (f fixedSrc) Str(alphabet []string, lo, hi int) string {
-	n := f.Range(lo, hi)
-	var sb strings.Builder
-	for i := 0; i < n; i++ {
-		sb.WriteString(alphabet[f.Intn(len(alphabet))])
-	}
-	return sb.String()
-}
-
-// --- the model -----------------------------------------------------------------------
-
-type c18Outcome struct {
-	modelled bool   // the harness computed the expected resource
-	mustFail bool   // the statement requires an error
-	why      string // class for signatures / histogram
-}
-
 // fieldByJSON finds a message-typed field by its FHIR (JSON) name.
 func fieldByJSON(md protoreflect.MessageDescriptor, name string) protoreflect.FieldDescriptor {
 	fs := md.Fields()
@@ -1128,4 +1083,12 @@ func TestC18(t *testing.T) {
 		Stage[c18InvCase]{Name: "inverse-pairs", Gen: c18GenInv, Run: c18RunInv, N: pick(1500, 12000)},
 		Stage[c18Case]{Name: "codes", Gen: c18GenCodes, Run: c18Run, N: pick(1500, 15000)},
 	)
+}
+
+// --- the model -----------------------------------------------------------------------
+
+type c18Outcome struct {
+	modelled bool   // the harness computed the expected resource
+	mustFail bool   // the statement requires an error
+	why      string // class for signatures / histogram
 }
